@@ -7,8 +7,10 @@
 //!                (two-operation scenarios add op2, i2, j2, s2, ckind, cml, cmu, cpat to sc and "wsC")
 //! Trace line:    {"sid","act":"ctorA|fillA|ctorB|fillB|op|ctorC|fillC|op2","panic":bool,"entries":[[int]],"kind":"I|F|B","ml","mu",
 //!                 "len","data":[int],"val":bool, ("sc": scenario record, on ctorA lines)}
-//! Entries / data are small integers (exact in f64); 888888 = value read back is not a small integer,
-//! 999999 = reading that entry panicked.
+//! Numbers (entries, data, write values, scalars) are the graded values of spec/matrix/Graded.tla, m * 2^(80 e) with
+//! |m| < 100000 and e in -3..3, carried as the integer code m + e * 2000000 (zero is 0; a small integer is its own code):
+//! `decode` builds the f64 handed to the code under test exactly, `to_code` converts what the code returned
+//! (888888 = value read back is not such a number, 999999 = reading that entry panicked).
 //!
 //! --mutate k (self-test of the binding: deliberately falsify the *recorded* outcome)
 //!   1: report a wrong entry in the result of every binary / scalar op
@@ -24,8 +26,37 @@ use std::io::{BufRead, BufReader, BufWriter, Write};
 const NOTINT: i64 = 888888;
 const READPANIC: i64 = 999999;
 
+const GSTRIDE: i64 = 2_000_000;
+const GHALF: i64 = 1_000_000;
+const GLEVEL_BITS: i32 = 80;
+const GMAXE: i64 = 3;
+
+/// 2^k exactly (k within the normal exponent range)
+fn pow2(k: i32) -> f64 {
+    assert!((-1022..=1023).contains(&k));
+    f64::from_bits(((1023 + k) as u64) << 52)
+}
+
+/// code m + e*GSTRIDE -> m * 2^(80 e), exact (|m| < 2^20, |e| <= 3)
+fn decode(code: i64) -> f64 {
+    let e = (code + GHALF).div_euclid(GSTRIDE);
+    let m = code - e * GSTRIDE;
+    assert!(e.abs() <= GMAXE, "scenario number {code} outside the graded range");
+    (m as f64) * pow2(GLEVEL_BITS * e as i32)
+}
+
+/// f64 -> code of the graded number it is exactly equal to, or NOTINT.  Multiplying by a power of two is exact unless the
+/// result leaves the normal range, in which case it is not a non-zero integer below 100000 and the level is rejected.
 fn to_int(v: f64) -> i64 {
-    if v.is_finite() && v.fract() == 0.0 && v.abs() < 100000.0 { v as i64 } else { NOTINT }
+    if !v.is_finite() { return NOTINT; }
+    if v == 0.0 { return 0; }
+    for e in [0, -1, 1, -2, 2, -3, 3] {
+        let w = v * pow2(-GLEVEL_BITS * e as i32);
+        if w.is_finite() && w != 0.0 && w.fract() == 0.0 && w.abs() < 100000.0 && w * pow2(GLEVEL_BITS * e as i32) == v {
+            return w as i64 + e * GSTRIDE;
+        }
+    }
+    NOTINT
 }
 
 fn read_all(m: &Matrix, n: usize) -> Vec<Vec<i64>> {
@@ -110,7 +141,7 @@ impl Out {
 fn writes(m: &mut Matrix, ws: &Value) -> bool {
     // returns true if a write panicked (stops at the first panic)
     for w in ws.as_array().unwrap() {
-        let (i, j, v) = (w[0].as_u64().unwrap() as usize, w[1].as_u64().unwrap() as usize, w[2].as_i64().unwrap() as f64);
+        let (i, j, v) = (w[0].as_u64().unwrap() as usize, w[1].as_u64().unwrap() as usize, decode(w[2].as_i64().unwrap()));
         if catch(|| { m[(i, j)] = v; }).is_err() { return true; }
     }
     false
@@ -183,7 +214,7 @@ fn main() {
         let sc = &rec["sc"];
         let n = us(sc, "n");
         let op = st(sc, "op").to_string();
-        let init: Vec<f64> = rec["initA"].as_array().unwrap().iter().map(|v| v.as_i64().unwrap() as f64).collect();
+        let init: Vec<f64> = rec["initA"].as_array().unwrap().iter().map(|v| decode(v.as_i64().unwrap())).collect();
 
         // ctorA
         let (ctor, ml, mu) = (st(sc, "ctor"), us(sc, "ml"), us(sc, "mu"));
@@ -212,7 +243,7 @@ fn main() {
 
         // op: (panicked, result / target matrix, is_identity value)
         let (i, j) = (us(sc, "i"), us(sc, "j"));
-        let s = sc["s"].as_i64().unwrap() as f64;
+        let s = decode(sc["s"].as_i64().unwrap());
         let (p1, r1, v1) = apply(&op, a, &b, i, j, s);
         out.line(sid, "op", None, p1, r1.as_ref(), n, v1, &op);
 
@@ -232,7 +263,7 @@ fn main() {
                 out.line(sid, "fillC", None, p, Some(&c), n, false, &op2);
             }
             let (i2, j2) = (us(sc, "i2"), us(sc, "j2"));
-            let s2 = sc["s2"].as_i64().unwrap() as f64;
+            let s2 = decode(sc["s2"].as_i64().unwrap());
             let (p2, r2, v2) = apply(&op2, r, &c, i2, j2, s2);
             out.line(sid, "op2", None, p2, r2.as_ref(), n, v2, &op2);
         }
